@@ -272,6 +272,14 @@ func main() {
 			jobs = append(jobs, job{"/* " + strings.Repeat("b", n) + " */\n" + base + next, d.Label, "canonical", fmt.Sprintf("long-block-comment-%d-before", n)})
 		}
 	}
+	// everything C10's acceptance search finds acceptable: all lexeme strings up to length 3 from two start states, and every
+	// lexeme (thorough: every pair) between a top-level attribute / doc comment and the definition it annotates
+	for _, t := range textgen.LexemeStrings(3) {
+		jobs = append(jobs, job{t, "lexemes", "as-is", "lexeme-string"})
+	}
+	for _, t := range textgen.AttributeInterleavings(run.Thorough()) {
+		jobs = append(jobs, job{t, "attribute-interleaving", "as-is", "attribute-interleaving"})
+	}
 	// the repository's own schemas
 	dir := vlib.RepoDir() + "/testdata/base"
 	ents, _ := os.ReadDir(dir)
